@@ -46,6 +46,7 @@ MIN_REACH = {
     "partial_write_states": {"quick": 100, "thorough": 1000},
     "syscall_crash_points": {"quick": 8, "thorough": 50},
     "recoveries_of_a_crop_of_twelve_batches": {"quick": 10, "thorough": 10},
+    "recoveries_that_first_looked_with_a_partial_reap": {"quick": 15, "thorough": 15},
     "recoveries_of_a_harvester_whose_file_is_named_by_a_path_object": {"quick": 25, "thorough": 25},
     "recoveries_that_resowed_through_the_restored_crop_of_a_farmer_with_resources": {"quick": 20, "thorough": 150},
 }
@@ -74,7 +75,7 @@ def cases(ctx):
                    "engine": "joblib" if (farmer == "harvester" and victim in ("reap", "grow_missing", "resow")) else None,
                    "grown": [1] if victim.startswith("grow") else [], "idx": idx, "depth2": 0, "part": [part, P],
                    # (some farmers supply a constant argument that is not recorded with the data)
-                   "res": farmer != "raw" and idx % 4 in (1, 2), "pathname": farmer == "harvester" and victim in ("reap", "sow", "grow_missing")}
+                   "peek": victim.startswith("grow") and idx % 2 == 0, "res": farmer != "raw" and idx % 4 in (1, 2), "pathname": farmer == "harvester" and victim in ("reap", "sow", "grow_missing")}
         idx += 1
     for farmer, victim in base:
         if victim in ("grow_subset", "grow_missing", "reap"):
@@ -366,8 +367,20 @@ def _recover(case, root):
                 else:
                     _sow(case, root)
             crop = _load_crop(root)
+            peeked = False
+            if case.get("peek") and case["farmer"] in ("raw", "runner"):
+                # the surviving driver first LOOKS at what is there (a partial reap), then has the missing batches grown
+                # by another process (a re-queued worker), then reaps with the object it looked with
+                try:
+                    crop.reap(allow_incomplete=True)
+                    peeked = True
+                except Exception:
+                    pass        # (nothing finished yet / not reapable: nothing to look at)
             crop.check_bad()
-            crop.grow_missing()
+            if peeked:
+                _load_crop(root).grow_missing()
+            else:
+                crop.grow_missing()
             sampled = _expected_rows(case, root) if case["farmer"] == "sampler" else None
             res = crop.reap()
     except BaseException as e:      # noqa
@@ -378,7 +391,7 @@ def _recover(case, root):
         d = _harvester_file_has(root, _earlier(case) + list(range(1, case["n"] + 1)), case.get("engine") or "h5netcdf", _res(case))
     if d is None and os.path.exists(cropkit.crop_dir(root, NAME)):
         d = "crop directory still exists after the recovered reap"
-    return ("exact", "restored-resow" if "restored" in dir() and restored is not None else None) if d is None else ("wrong", d)
+    return ("exact", "restored-resow" if "restored" in dir() and restored is not None else ("peeked" if peeked else None)) if d is None else ("wrong", d)
 
 
 def setup(ctx):
@@ -571,6 +584,8 @@ def run_case(ctx, case):
                 ctx.count("recoveries_of_a_harvester_whose_file_is_named_by_a_path_object")
             if case.get("twelve"):
                 ctx.count("recoveries_of_a_crop_of_twelve_batches")
+            if r2[1] == "peeked":
+                ctx.count("recoveries_that_first_looked_with_a_partial_reap")
             if r2[1] == "restored-resow":
                 ctx.count("recoveries_that_resowed_through_the_restored_crop_of_a_farmer_with_resources")
         # (2b) workers that were already queued when the sow was killed grow whatever complete batch files they find,
